@@ -7,9 +7,14 @@ PID = "C12"
 def tasks(tier, seed):
     hs = gen.hashseeds(tier, seed)
     n = 20 if tier == "quick" else 150
+    exh = 6 if tier == "quick" else 64
     ts = []
     for i, fam in enumerate(chk.FAMILIES):
         for j in range(1 if tier == "quick" else 4):
+            if fam.endswith("/exh"):
+                if j == 0:
+                    ts.append({"kind": "fam", "fam": fam, "lo": seed * 7, "count": exh})
+                continue
             ts.append({"kind": "fam", "fam": fam, "lo": seed * 100000 + j * n, "count": n})
     return gen.spread(ts, hs)
 
